@@ -1,28 +1,47 @@
+"""C20 replay: n records of `size` bytes logged right before the child returns / raises / exits; all must be handled once, in order."""
 import logging, sys, faulthandler
 from mpservice.multiprocessing import Process
-faulthandler.dump_traceback_later(20, exit=True)
-def target(n, size):
+faulthandler.dump_traceback_later(60, exit=True)
+
+
+def target(n, size, how):
     lg = logging.getLogger('child')
     for i in range(n):
-        lg.warning('%d %s', i, 'x'*size)
+        lg.warning('%d %s', i, 'x' * size)
+    lg.debug('-1 below the parent level')
+    if how == 'raise':
+        raise ValueError(n)
+    if how == 'exit':
+        sys.exit(3)
     return n
+
+
 class H(logging.Handler):
     def __init__(self):
-        super().__init__(); self.got=[]
+        super().__init__()
+        self.got = []
+
     def emit(self, record):
         self.got.append(int(record.getMessage().split()[0]))
+
+
 if __name__ == '__main__':
     n, size = int(sys.argv[1]), int(sys.argv[2])
-    h = H()
-    logging.getLogger().addHandler(h)
-    logging.getLogger().setLevel(logging.DEBUG)
-    p = Process(target=target, args=(n, size))
-    p.start()
-    try:
-        r = p.result(timeout=10)
-        print('result', r)
-    except BaseException as e:
-        print('result raised', repr(e))
-    print('handled', len(h.got), 'of', n, 'in order', h.got == sorted(h.got), 'exitcode', p.exitcode)
-    if p.exitcode is None:
-        p.kill()
+    for how in ('return', 'raise', 'exit'):
+        h = H()
+        root = logging.getLogger()
+        root.addHandler(h)
+        root.setLevel(logging.INFO)
+        p = Process(target=target, args=(n, size, how))
+        p.start()
+        try:
+            r = p.result(timeout=40)
+            assert how == 'return' and r == n, (how, r)
+        except ValueError:
+            assert how == 'raise'
+        except SystemExit:
+            assert how == 'exit'
+        root.removeHandler(h)
+        assert p.exitcode is not None, 'child never exited'
+        assert h.got == list(range(n)), (how, len(h.got), n, h.got[-5:])
+    print('OK')
